@@ -32,7 +32,7 @@ CHECKS = {
          'DESIGN.md §3 C07', 'E2'),
  'C03': ('exploration',
          'stateless deviation-bounded exploration (reply faults x thread schedules) of the real connect sequence against a simulated device',
-         'A real Crazyflie object downloads the tables from a simulated device (SimCF) through a simulated link under a '
+         'Wave 14: eight configurations put a complete session of the same Crazyflie object with ANOTHER device (other protocol generation / no versioning / other tables, with and without cache) in front; first-generation SimCF ignores 16-bit TOC commands. A real Crazyflie object downloads the tables from a simulated device (SimCF) through a simulated link under a '
          'controlled scheduler with virtual time. 40 small configurations (both TOC generations, no-versioning device, '
          'sizes 0..3, every type code, name-length extremes, ISO-8859-1 names, lossy and reliable links, rw/ro cache) are '
          'explored with every single deviation (quick) / every pair of deviations on six of them (thorough) among: '
@@ -45,7 +45,7 @@ CHECKS = {
          'DESIGN.md §3 C03', 'E3'),
  'C02': ('exploration',
          'stateless deviation-bounded exploration of thread schedules and fault/close times of the real connection code under a controlled scheduler',
-         'Also: the unsolicited value notification about the parameter that is read first. Also: the link is lost (or the user closes) at every line of the traced functions with the interrupted thread held back until the error path has run to its end (scheduling policy env_first, one deviation). The real Crazyflie / SyncCrazyflie objects connect to a simulated device while a controlled scheduler owns every '
+         'Wave 13: four configurations put a complete fault-free session of the same object in front of the explored attempt. Also: the unsolicited value notification about the parameter that is read first. Also: the link is lost (or the user closes) at every line of the traced functions with the interrupted thread held back until the error path has run to its end (scheduling policy env_first, one deviation). The real Crazyflie / SyncCrazyflie objects connect to a simulated device while a controlled scheduler owns every '
          'thread switch and the clock. 14 configurations (Crazyflie / SyncCrazyflie, protocol 3 / 10, hello packet, unsolicited value update during the download, immediate retry of a failed blocking open, default / eager-start / hand-off default schedule). Explored exhaustively: every single deviation (quick) among link error from the '
          'driver thread at any scheduling point, link error raised inside send_packet at any transmission, user close_link '
          'at any point, any other runnable thread at any synchronisation point - and, in two line-level configurations, '
@@ -74,7 +74,7 @@ CHECKS = {
          'DESIGN.md §3 C14', 'enumeration'),
  'C10': ('exploration',
          'stateless deviation-bounded exploration of loss/delay patterns, close/reopen times and timer-vs-dispatcher orders on the real retry code in virtual time',
-         'Also: a packet counts as received when the library takes it from the link (the reference does not depend on where the library calls its matcher); a handler that sends the next request with the same pattern from the dispatcher thread. Also: two requests awaiting the same reply pattern, the same pattern awaited again in the next session (close exactly at the second retry instant: virtual instants are compared on a 1 ns grid), a request registered while a matching packet is being matched is not judged. Also: a focused line-level search (any first deviation + 1-2 switches at the lines of the retry machinery) and the two-deviation exploration of a second user sending across close/re-open. The real Crazyflie.send_packet / retry timers / dispatcher run against a silent simulated device under the '
+         'Waves 13-14: requests left unanswered by a closed / lost session vs prefix-sharing patterns of the next session; next session over a link of the other kind; reconnect + request from inside the disconnected callback. Also: a packet counts as received when the library takes it from the link (the reference does not depend on where the library calls its matcher); a handler that sends the next request with the same pattern from the dispatcher thread. Also: two requests awaiting the same reply pattern, the same pattern awaited again in the next session (close exactly at the second retry instant: virtual instants are compared on a 1 ns grid), a request registered while a matching packet is being matched is not judged. Also: a focused line-level search (any first deviation + 1-2 switches at the lines of the retry machinery) and the two-deviation exploration of a second user sending across close/re-open. The real Crazyflie.send_packet / retry timers / dispatcher run against a silent simulated device under the '
          'controlled scheduler. 22 scenarios (a second user thread sending across close/re-open, hand-off default schedule, single request with 0.2 s and 1 s timeout, prefix-sharing patterns in both '
          'issue orders, unsolicited packet matching several pending patterns, close, close+reopen inside and at the retry '
          'instant, reliable link) are explored with every single deviation and (3 scenarios quick / all thorough) every '
@@ -88,7 +88,7 @@ CHECKS = {
          'DESIGN.md §3 C10', 'E3'),
  'C20': ('exploration',
          'exhaustive enumeration of the URI grammar product and of driver lists against an independent parser',
-         'Also: init_drivers() called again with the serial driver switched on. Library calls that start threads run under a 60 s real-time bound (a tree on which close()/connect() never returns yields VIOLATION hang:*, not a hanging check). Also: every ordered pair of dongle plug states for serial-number ids (parse, replug, parse again) and the serial driver enabled without pyserial. Every URI of the radio grammar product (11 dongle ids incl. case-varied and all-digit serials, channels 0..125, 3 '
+         'Wave 14: for every fifth connected URI a scan_interface() by another driver object while the link is open (shared dongle must be retuned). Also: init_drivers() called again with the serial driver switched on. Library calls that start threads run under a 60 s real-time bound (a tree on which close()/connect() never returns yields VIOLATION hang:*, not a hanging check). Also: every ordered pair of dongle plug states for serial-number ids (parse, replug, parse again) and the serial driver enabled without pyserial. Every URI of the radio grammar product (11 dongle ids incl. case-varied and all-digit serials, channels 0..125, 3 '
          'rates, 363 address strings of every length 1..10 in three letter cases, 4 omitted-field shapes, 8 query strings) '
          'goes through the real RadioDriver.parse_uri and a stated subset through get_link_driver onto a scripted USB dongle '
          '(settings in force at each transmission are observed); scan_interface for 13 addresses over scripted populations; '
@@ -99,7 +99,7 @@ CHECKS = {
          'DESIGN.md §3 C20', 'enumeration'),
  'C06': ('exploration',
          'exhaustive input enumeration plus stateless deviation-bounded exploration of reply faults, link loss and schedules on the real Memory subsystem',
-         'Also: the user overwrites or empties its data buffer as soon as write() has returned; another Crazyflie object is constructed at any point during a transfer. Also: the link is lost at every line of the user\'s call and of the handlers with the interrupted thread held back until the error path has finished (policy env_first); the fault thread is parked before the first request. Also: four long transfers (2500-5100 bytes), focused line-level searches (one reply fault / link loss / second-user request + 1-2 thread switches at the lines of the memory subsystem), link lost at any point followed by a second user\'s request within 30 points, two user threads at line level. Part A drives every (memory id in {0,1,255}) x (7 start addresses incl. chunk boundaries and the top of the 32-bit '
+         'Wave 13: part C - 48 chains: a read / write of the same or another memory started from inside the success or failure notification of a read / write. Also: the user overwrites or empties its data buffer as soon as write() has returned; another Crazyflie object is constructed at any point during a transfer. Also: the link is lost at every line of the user\'s call and of the handlers with the interrupted thread held back until the error path has finished (policy env_first); the fault thread is parked before the first request. Also: four long transfers (2500-5100 bytes), focused line-level searches (one reply fault / link loss / second-user request + 1-2 thread switches at the lines of the memory subsystem), link lost at any point followed by a second user\'s request within 30 points, two user threads at line level. Part A drives every (memory id in {0,1,255}) x (7 start addresses incl. chunk boundaries and the top of the 32-bit '
          'space) x (read lengths 0..61, write lengths 0..76, with and without progress callback) through the real Memory '
          'class against a sparse device image: returned bytes, final image, request/chunk tiling (<= 20 / <= 25 bytes, '
          'ascending, once), exactly one notification, no lock or record left. Part B explores 25 operation sequences (1-3 '
@@ -124,7 +124,7 @@ CHECKS = {
          'DESIGN.md §3 C08', 'enumeration'),
  'C04': ('exploration',
          'exhaustive input enumeration plus stateless deviation-bounded exploration of user-thread schedules and reply delays on the real parameter code',
-         'Also: two observers of every kind (parameter, group, all) are registered and each must be told exactly once. Part A: all 10 firmware parameter types x both id widths (protocol 10 / 3) x a value alphabet (type min/max, one '
+         'Wave 14: part C - set / read of a parameter issued from inside the fully_connected, all_updated and parameter-update notifications. Also: two observers of every kind (parameter, group, all) are registered and each must be told exactly once. Part A: all 10 firmware parameter types x both id widths (protocol 10 / 3) x a value alphabet (type min/max, one '
          'beyond, -1, 0, 1, 2, 2^64, decimal strings; float specials and overflow) through the real set_value / '
          'request_param_update: exact wire bytes, refusal without any transmission, cache, get_value and each of the three '
          'callback kinds exactly once with str(device value). Part B: 25 configurations of 13 thread sets (2-3 user threads issuing set / read / '
@@ -138,7 +138,7 @@ CHECKS = {
          'DESIGN.md §3 C04', 'E3'),
  'C05': ('model_checking',
          'exhaustive enumeration of variable lists/periods/values plus explicit-state BFS of the log-block life cycle on the real code, plus schedule exploration of SyncLogger',
-         'Also: raw-memory variables whose stored and fetched types differ in size on both sides of the 26-byte limit; decode of a block without variables. Also: packet objects handed to the link must still read the same after the later messages of a block creation; decoded samples are held and compared after later packets. Thread-free harness (real Crazyflie + real dispatcher loop pumped synchronously + SimCF): 123 variable lists '
+         'Wave 14: every reconnect of the life-cycle model presents another table order and checksum; each create request is decoded against the connected device\'s table. Also: raw-memory variables whose stored and fetched types differ in size on both sides of the 26-byte limit; decode of a block without variables. Also: packet objects handed to the link must still read the same after the later messages of a block creation; decoded samples are held and compared after later packets. Thread-free harness (real Crazyflie + real dispatcher loop pumped synchronously + SimCF): 123 variable lists '
          '(every stored x fetch type, default fetch, 0..27 one-byte variables, payloads 24..28 bytes, ids above 255, a '
          'missing name at each position, raw-memory variables) x periods on both sides of each limit: acceptance rule, '
          'nothing sent when rejected, create/append messages decoded by the device model (same variables, once, in order, '
@@ -200,7 +200,7 @@ CHECKS = {
          'DESIGN.md §3 C18', 'E2'),
  'C19': ('exploration',
          'stateless deviation-bounded exploration of per-member thread interleavings of the real Swarm code, over all sizes/failing subsets/argument dictionaries',
-         'Also: URIs given as a list changed after construction, as a generator and with a duplicate; other Swarm objects created before and after the one under test (their members must never be used). The real Swarm runs with instrumented members from its factory argument; the threads started by parallel_safe run '
+         'Wave 14: histories on one Swarm of two - 324 pairs and 216 triples of actions, 36 nested swarm-wide actions started from inside an action, up to one deviation. Also: URIs given as a list changed after construction, as a generator and with a duplicate; other Swarm objects created before and after the one under test (their members must never be used). The real Swarm runs with instrumented members from its factory argument; the threads started by parallel_safe run '
          'under the controlled scheduler with scheduling points at every line of the Swarm methods and inside the member '
          'operations. Enumerated completely: sizes 1..3 (thorough 4) x every failing subset x {sequential, parallel, '
          'parallel_safe, open_links, open_links twice} x three kinds of argument dictionary, each with every schedule of at '
